@@ -202,7 +202,7 @@ def checkDirectives (g : List GProd) (d : ParserDesc) (tr : List (List (Nat × T
       | some exs => chk (dedupSorted (sortBy (· ≤ ·) exs) == l) s!"skip[{s}]"))
 
 /-- The same comparison against GIVEN token numbers (what `to_grammar_config.rs` resolved on the
-    untransformed grammar): used to attribute a failure of `checkDirectives` to finding F26. -/
+    untransformed grammar): used to attribute a failure of `checkDirectives` to finding F29. -/
 def checkDirectivesGiven (d : ParserDesc) (tr : List (List DTrans)) (sk : List (List Nat)) : Option String :=
   if tr.length ≠ d.modes.length then some "transition-list-count" else
   if sk.length ≠ d.skips.length then some "skip-list-count" else
@@ -364,7 +364,7 @@ def Tbl.handleTidCheck3 : List String → Option String
   | _ => none
 
 -- @handler tid-stale Tbl.handleTidStale
-/-- Attribution to finding F26: `ok` iff every description passes `tidCheck` once the `%on` / `%skip`
+/-- Attribution to finding F29: `ok` iff every description passes `tidCheck` once the `%on` / `%skip`
     expectation is replaced by the numbers resolved on the UNTRANSFORMED grammar (the generated lists
     are exactly the stale numbers, and nothing else is wrong). -/
 def Tbl.handleTidStale : List String → Option String
